@@ -55,26 +55,27 @@ type T struct {
 	st      *Stats
 	exhausted bool
 	quiet   bool // shrinking run: do not write the failure file
-	stale   bool // replay: a recorded label did not match the draw asked for
+	skipped int  // replay: recorded draws passed over
+	missed  int  // replay: draws asked for that were not recorded
 }
 
 func (t *T) record(d Draw) { t.draws = append(t.draws, d) }
 
 func (t *T) next(label, kind string) (string, bool) {
-	if t.pos >= len(t.replay) {
-		t.exhausted = true
-		return "", false
+	// Tolerant replay: a saved case stays executable when the generator has
+	// gained or lost a draw since. Look a few entries ahead for the label asked
+	// for; if it is not there, the draw takes its simplest value and nothing
+	// is consumed.
+	for k := 0; k < 12 && t.pos+k < len(t.replay); k++ {
+		d := t.replay[t.pos+k]
+		if d.L == label && d.K == kind {
+			t.skipped += k
+			t.pos += k + 1
+			return d.V, true
+		}
 	}
-	d := t.replay[t.pos]
-	t.pos++
-	if d.L != label {
-		t.stale = true
-	}
-	if d.K != kind {
-		t.exhausted = true
-		return "", false
-	}
-	return d.V, true
+	t.missed++
+	return "", false
 }
 
 // IntRange draws an int in [lo, hi].
@@ -450,7 +451,7 @@ func ReplayFile(st *Stats, path string, prop func(*T)) (ok bool, msg string) {
 	if t.failed {
 		return false, fmt.Sprintf("[%s] %s", t.failKey, t.failMsg)
 	}
-	if t.stale || t.pos < len(t.replay) {
+	if n := len(t.replay); n > 0 && (t.skipped+(n-t.pos))*4 > n {
 		// the generator changed since the case was saved: the replay did not
 		// execute the recorded case
 		st.Extra["stale_replay"] = 1
